@@ -639,6 +639,15 @@ class sptensor:
             return ttb.sptensor(np.array([]), np.array([]), self.shape, copy=False)
         return ttb.sptensor(self.subs[idx, :], vals[idx], self.shape, copy=False)
 
+    def _vals_of(self, other: ttb.tensor) -> np.ndarray:
+        """Values of a dense tensor at the stored subscripts, as a column vector.
+
+        Indexing a dense tensor with zero or one subscript does not return a vector.
+        """
+        if self.nnz == 0:
+            return np.empty((0, 1))
+        return np.reshape(other[self.subs], (-1, 1))
+
     def extract(self, searchsubs: np.ndarray) -> np.ndarray:
         """
         Extract value from the :class:`pyttb.sptensor`.
@@ -1029,7 +1038,7 @@ class sptensor:
             return C
 
         if isinstance(other, ttb.tensor):
-            BB = sptensor(self.subs, other[self.subs][:, None], self.shape)
+            BB = sptensor(self.subs, self._vals_of(other), self.shape)
             C = self.logical_and(BB)
             return C
 
@@ -2677,8 +2686,8 @@ class sptensor:
             # Find where their nonzeros intersect
             znzsubs = np.empty(shape=(0, other.ndims), dtype=int)
             if self.nnz > 0:
-                othervals = other[self.subs]
-                znzsubs = self.subs[(othervals[:, None] == self.vals).transpose()[0], :]
+                othervals = self._vals_of(other)
+                znzsubs = self.subs[(othervals == self.vals).transpose()[0], :]
 
             return sptensor(
                 np.vstack((zzerosubs, znzsubs)),
@@ -2973,7 +2982,7 @@ class sptensor:
             )
         if isinstance(other, ttb.tensor):
             csubs = self.subs
-            cvals = self.vals * other[csubs][:, None]
+            cvals = self.vals * self._vals_of(other)
             return ttb.sptensor(csubs, cvals, self.shape)
         if isinstance(other, ttb.ktensor):
             csubs = self.subs
@@ -3350,7 +3359,7 @@ class sptensor:
 
         if isinstance(other, ttb.tensor):
             csubs = self.subs
-            cvals = self.vals / other[csubs][:, None]
+            cvals = self.vals / self._vals_of(other)
             return ttb.sptensor(csubs, cvals, self.shape)
         if isinstance(other, ttb.ktensor):
             # TODO consider removing epsilon and generating nans consistent with above
